@@ -476,27 +476,17 @@ func sigEmptyBytesNull(c fw.Case, out []string, msg string) bool {
 	return ok && !g.ll && rule == "json" && stored && g.s.k == kBytes && len(g.s.b) == 0
 }
 
-func sigFloatNaNPanic(c fw.Case, out []string, msg string) bool {
-	rule, _, _, g, _, ok := failing(c, msg)
-	return ok && !g.ll && rule == "panic" && g.s.k == kFloat && isNaN(g.s.bits)
-}
-
 func sigLeafListFloatInfWedge(c fw.Case, out []string, msg string) bool {
 	rule, op, _, g, _, ok := failing(c, msg)
 	if !ok || !g.ll || rule != "roundtrip" || op != "value.e2e" || !strings.Contains(msg, "wedged") {
 		return false
 	}
 	for _, e := range g.es {
-		if e.k == kFloat && !finite(e.bits) && !isNaN(e.bits) {
+		if e.k == kFloat && !finite(e.bits) {
 			return true
 		}
 	}
 	return false
-}
-
-func sigDecimalPrecisionPanic(c fw.Case, out []string, msg string) bool {
-	rule, op, _, g, _, ok := failing(c, msg)
-	return ok && !g.ll && rule == "panic" && (op == "value.jsonof" || op == "value.rjson") && g.s.k == kDec && g.s.prec%256 >= 64
 }
 
 // Prop is the C17 correspondence check.
@@ -526,8 +516,6 @@ var Prop = &fw.Prop{
 		"floatPercentF":            sigFloatPercentF,
 		"decimalLeafListFloat":     sigDecimalLeafListFloat,
 		"emptyBytesNull":           sigEmptyBytesNull,
-		"floatNaNPanic":            sigFloatNaNPanic,
-		"decimalPrecisionPanic":    sigDecimalPrecisionPanic,
 		"leafListFloatInfWedge":    sigLeafListFloatInfWedge,
 	},
 }
